@@ -34,6 +34,11 @@ func verifNewState(noReg bool) (*State, *strings.Builder) {
 	s.LogOut = out
 	s.NoLog = true
 	s.NoReg = noReg
+	// extensions.Init (which this package cannot import) defines nil; the native test binary has it through
+	// the external test package, the symbolic run gets it here
+	if _, ok := s.env.Get("nil"); !ok {
+		s.env.SetNoChecks("nil", object.NULL, true)
+	}
 	return s, out
 }
 
